@@ -51,8 +51,8 @@ pub fn named_twin(a: u64) -> u64 { m1(); m2() }
 pub fn skipping(a: u64, big: Big) -> u64 { m1(); big.a + m2() }
 pub fn skipping_twin(a: u64, big: Big) -> u64 { m1(); big.a + m2() }
 
-// ---- skip_all + fields
-#[instrument(skip_all, fields(answer = 42, who = %b))]
+// ---- skip everything + custom fields (this tree's attribute has no `skip_all`; unknown arguments only warn)
+#[instrument(skip(a, b), fields(answer = 42, who = %b))]
 pub fn skip_all_fields(a: u64, b: &str) -> u64 { m1(); m2(); a }
 pub fn skip_all_fields_twin(a: u64, b: &str) -> u64 { m1(); m2(); a }
 
@@ -120,3 +120,75 @@ pub fn with_parent_twin(parent: &tracing::Span, a: u64) -> u64 { m1(); a + m2() 
 #[instrument(follows_from = causes, skip(causes))]
 pub fn with_follows(causes: Vec<tracing::span::Id>, a: u64) -> u64 { m1(); a + m2() }
 pub fn with_follows_twin(causes: Vec<tracing::span::Id>, a: u64) -> u64 { m1(); a + m2() }
+
+// ---- ret at the span's (non-default) level
+#[instrument(level = "debug", ret)]
+pub fn ret_lvl(a: u64) -> u64 { m1(); a + m2() }
+pub fn ret_lvl_twin(a: u64) -> u64 { m1(); a + m2() }
+
+// ---- ret(Display) / err(Debug)
+#[instrument(ret(Display))]
+pub fn ret_display(a: u64) -> u64 { m1(); a + m2() }
+pub fn ret_display_twin(a: u64) -> u64 { m1(); a + m2() }
+
+#[instrument(err(Debug))]
+pub fn err_debug(a: u64) -> Result<u64, String> { m1(); let v = fallible()?; m2(); Ok(v + a) }
+pub fn err_debug_twin(a: u64) -> Result<u64, String> { m1(); let v = fallible()?; m2(); Ok(v + a) }
+
+// ---- async with ret / ret + err
+#[instrument(ret)]
+pub async fn async_ret(a: u64) -> u64 { m1(); let v = helper().await; m2(); a + v }
+pub async fn async_ret_twin(a: u64) -> u64 { m1(); let v = helper().await; m2(); a + v }
+
+#[instrument(ret, err)]
+pub async fn async_ret_err(a: u64) -> Result<u64, String> { m1(); let v = fallible()?; helper().await; if cond() { return Err(String::new()); } m2(); Ok(v + a) }
+pub async fn async_ret_err_twin(a: u64) -> Result<u64, String> { m1(); let v = fallible()?; helper().await; if cond() { return Err(String::new()); } m2(); Ok(v + a) }
+
+// ---- impl Trait return
+#[instrument]
+pub fn impl_ret(n: u64) -> impl Iterator<Item = u64> { m1(); let k = m2(); (0..n).map(move |x| x + k) }
+pub fn impl_ret_twin(n: u64) -> impl Iterator<Item = u64> { m1(); let k = m2(); (0..n).map(move |x| x + k) }
+
+// ---- by-value self, unused non-Copy argument
+impl Svc {
+    #[instrument(skip(self))]
+    pub fn consume(self, a: u64) -> u64 { m1(); self.n + a + m2() }
+    pub fn consume_twin(self, a: u64) -> u64 { m1(); self.n + a + m2() }
+}
+
+#[instrument]
+pub fn unused_arg(big: Big, a: u64) -> u64 { m1(); a + m2() }
+pub fn unused_arg_twin(big: Big, a: u64) -> u64 { m1(); a + m2() }
+
+// ---- async-trait style: a fn returning a pinned boxed `async move` block
+#[instrument]
+pub fn boxed(a: u64) -> std::pin::Pin<Box<dyn std::future::Future<Output = u64> + Send>> {
+    Box::pin(async move { m1(); let v = helper().await; m2(); a + v })
+}
+pub fn boxed_twin(a: u64) -> std::pin::Pin<Box<dyn std::future::Future<Output = u64> + Send>> {
+    Box::pin(async move { m1(); let v = helper().await; m2(); a + v })
+}
+
+// ---- target only; custom field shadowing a parameter
+#[instrument(target = "only::target")]
+pub fn target_only(a: u64) -> u64 { m1(); a + m2() }
+pub fn target_only_twin(a: u64) -> u64 { m1(); a + m2() }
+
+#[instrument(fields(a = 7))]
+pub fn shadowed(a: u64, b: u64) -> u64 { m1(); a + b + m2() }
+pub fn shadowed_twin(a: u64, b: u64) -> u64 { m1(); a + b + m2() }
+
+// ---- nested closure capturing an argument, match, while
+#[instrument(err)]
+pub fn nested(a: u64, big: Big) -> Result<u64, String> {
+    let f = |x: u64| x + a + m1();
+    let mut i = 0;
+    while i < f(1) { i += m2(); if cond() { break; } }
+    match fallible() { Ok(v) => { m3(); Ok(v + big.a) } Err(e) => { m4(); Err(e) } }
+}
+pub fn nested_twin(a: u64, big: Big) -> Result<u64, String> {
+    let f = |x: u64| x + a + m1();
+    let mut i = 0;
+    while i < f(1) { i += m2(); if cond() { break; } }
+    match fallible() { Ok(v) => { m3(); Ok(v + big.a) } Err(e) => { m4(); Err(e) } }
+}
